@@ -57,6 +57,12 @@ def near_misses(label):
     return sorted(out)
 
 
+import decimal      # noqa: E402
+import fractions    # noqa: E402
+OUTSIDE_FRACTIONS = [-0.5, -0.01, -0.999, -1e-9, 100.01, 100.5, 100.999, 100.0000001, decimal.Decimal("100.9"), decimal.Decimal("-0.1"), fractions.Fraction(201, 2),
+                     fractions.Fraction(-1, 3), -1.5, 101.5, 1e300, -1e300]
+
+
 def build_cases():
     cases = []
     for scale, (v2l, l2v, rows) in sorted(TABLES.items()):
@@ -65,6 +71,9 @@ def build_cases():
             cases.append((scale, "v2l", v))
         for lab in labels:
             cases.append((scale, "l2v", lab))
+        # numbers outside 0-100 which are not integers: just beyond either end (where cutting the fraction off would bring them inside)
+        for k in range(len(OUTSIDE_FRACTIONS)):
+            cases.append((scale, "v2l-outside-fraction", k))
         miss = set()
         for lab in labels:
             miss.update(near_misses(lab))
@@ -128,6 +137,15 @@ def one(ctx, rng, i):
             if got[0] != "refused":
                 ctx.violation("out-of-range-not-refused", "%s(%d) gave %r; values outside 0-100 must be refused"
                               % (v2l_name, x, got), {"function": v2l_name, "input": x, "got": got})
+    elif kind == "v2l-outside-fraction":
+        xv = OUTSIDE_FRACTIONS[x]
+        got = call(v2l, xv)
+        ctx.ev()
+        ctx.count("outside_fractions_probed")
+        ctx.nontrivial(scale, kind, repr(xv))
+        # (a refusal with another exception of the documented family is a refusal too: a Fraction is not what the function expects)
+        if got[0] == "ret":
+            ctx.violation("out-of-range-not-refused", "%s(%r) gave %r; values outside 0-100 must be refused" % (v2l_name, xv, got), {"function": v2l_name, "input": repr(xv), "got": got})
     elif kind == "l2v":
         got = call(l2v, x)
         exp = [r[3] for r in rows if r[0] == x][0]
